@@ -59,10 +59,11 @@ type c18Spec struct {
 	IssueMode    string  `json:"issue_mode,omitempty"`   // "" | absent | empty | garbage | ancient-wrap (delivery time - 2^64 ns - 30 s: where 64-bit nanosecond arithmetic wraps round to "30 s ago") | year-1700 | year-1000 | year-0001
 	IssueRefMs   int64   `json:"issue_ref_ms,omitempty"` // ancient-wrap: the delivery delay the instant is computed against
 	TimeForm     int     `json:"time_form,omitempty"`
-	Destination  *string `json:"destination"`            // nil: attribute absent
-	Issuer       *string `json:"issuer"`                 // nil: element absent
-	IssuerSplit  int     `json:"issuer_split,omitempty"` // >0: an XML comment is placed inside the Issuer text at this offset (text content unchanged)
-	Status       *string `json:"status"`                 // nil: Status element absent
+	Destination  *string `json:"destination"`             // nil: attribute absent
+	Issuer       *string `json:"issuer"`                  // nil: element absent
+	IssuerFormat string  `json:"issuer_format,omitempty"` // "": nameid-format:entity; the Format an Issuer element carries is not a second name for anybody
+	IssuerSplit  int     `json:"issuer_split,omitempty"`  // >0: an XML comment is placed inside the Issuer text at this offset (text content unchanged)
+	Status       *string `json:"status"`                  // nil: Status element absent
 	StatusNested string  `json:"status_nested,omitempty"`
 	NoStatusCode bool    `json:"no_status_code,omitempty"` // Status element without StatusCode
 	SignKey      int     `json:"sign_key"`                 // index into rsaKeys; -1: unsigned
@@ -281,6 +282,9 @@ func c18ValidSpec(g *Rng, k c18Knobs, i int, delay int64) c18Spec {
 	if g.Bool(0.05) {
 		s.IssuerSplit = 1 + g.Intn(len(k.IDPEntity)-1) // a comment inside the text does not change the text
 	}
+	if g.Bool(0.06) {
+		s.IssuerFormat = Pick(g, "urn:oasis:names:tc:SAML:1.1:nameid-format:unspecified", "urn:example:format:tenant") // the right name under an unusual Format
+	}
 	s.Pretty = g.Bool(0.2)
 	return s
 }
@@ -443,7 +447,11 @@ func c18Defect(g *Rng, k c18Knobs, st *c18Step, s *c18Spec, dim string) {
 			// <Issuer>entity-id<!-- -->.evil.example</Issuer>: the text content is the longer name
 			v, lab = sp(e+".evil.example"), "comment-split-extended"
 		}
-		if lab == "comment-split-extended" {
+		if v != nil && g.Bool(0.35) {
+			s.IssuerFormat = Pick(g, "urn:oasis:names:tc:SAML:1.1:nameid-format:unspecified", "urn:oasis:names:tc:SAML:2.0:nameid-format:persistent", "urn:example:format:tenant")
+			lab += "+format"
+		}
+		if strings.HasPrefix(lab, "comment-split-extended") {
 			s.Issuer, s.IssuerSplit = v, len(e)
 			st.Intent = append(st.Intent, "issuer:"+lab)
 		} else if g.Bool(0.2) {
@@ -853,7 +861,7 @@ func c18Build(k c18Knobs, st *c18Step, m *c18Model, t0 time.Time) []byte {
 		lr.Destination = *s.Destination
 	}
 	if s.Issuer != nil {
-		lr.Issuer = &saml.Issuer{Format: "urn:oasis:names:tc:SAML:2.0:nameid-format:entity", Value: *s.Issuer}
+		lr.Issuer = &saml.Issuer{Format: firstNonEmpty(s.IssuerFormat, "urn:oasis:names:tc:SAML:2.0:nameid-format:entity"), Value: *s.Issuer}
 	}
 	if s.Status != nil {
 		lr.Status = saml.Status{StatusCode: saml.StatusCode{Value: *s.Status}}
